@@ -97,7 +97,15 @@ def run (case impl : String) : String :=
     | none => "bad-case"
   | ["conn", wc, ops] => if wc == "0" || wc == "1" then C02.runConn (C02.splitOps ops) else "bad-case"
   | ["conn", wc] => if wc == "0" || wc == "1" then C02.runConn [] else "bad-case"
-  | ["conne", wc, ops] => if wc == "0" || wc == "1" then C02.runConnEv (C02.splitOps ops) else "bad-case"
+  | ["conne", cfg, ops] =>
+    -- `<wc>` or `<wc>/<mode>`: mode 0 = the event channel is drained, 1 = its receiver is gone, 2 = one slot, never drained
+    match cfg.splitOn "/" with
+    | [wc] => if wc == "0" || wc == "1" then C02.runConnEv 0 (C02.splitOps ops) else "bad-case"
+    | [wc, m] =>
+      match m.toNat? with
+      | some mode => if (wc == "0" || wc == "1") && mode ≤ 2 then C02.runConnEv mode (C02.splitOps ops) else "bad-case"
+      | none => "bad-case"
+    | _ => "bad-case"
   | ["kax", cfg, n] =>
     -- n requests in flight against a silent peer with keep-alive on: judged by the oracle only in this form
     -- (`Props.C10.keepalive_silence_breaks`, `keepalive_exhausted_ids_breaks`); the `ka` form of the same schedule
